@@ -16,6 +16,7 @@ import (
 	"pgregory.net/rapid"
 
 	"github.com/ARM-software/golang-utils/utils/subprocess"
+	"github.com/ARM-software/golang-utils/utils/subprocess/command"
 	"github.com/ARM-software/golang-utils/utils/subprocess/supervisor"
 
 	"verif/internal/ev"
@@ -61,6 +62,26 @@ type Case struct {
 	// OneCPU: the test process (and the processes it starts) are confined to one processor until shortly after the stop
 	// request: with Busy spinners this is an overloaded machine in small
 	OneCPU bool `json:"one_cpu,omitempty"`
+	// As: the command goes through a command translator (what sudo / su / gosu are): "" = none, "env" = `env <cmd>`,
+	// "nice" = `nice -n 0 <cmd>` (both replace themselves by the command, as sudo-like wrappers of interest do)
+	As string `json:"as,omitempty"`
+}
+
+func newProc(ctx context.Context, as string, args []string) (*subprocess.Subprocess, error) {
+	var tr *command.CommandAsDifferentUser
+	switch as {
+	case "":
+		return subprocess.New(ctx, quiet{}, "", "", "", proctree.Self(), args...)
+	case "env":
+		tr = command.NewCommandAsDifferentUser("env")
+	case "nice":
+		tr = command.NewCommandAsDifferentUser("nice", "-n", "0")
+	case "me":
+		tr = command.Me()
+	}
+	p := new(subprocess.Subprocess)
+	err := p.SetupAs(ctx, quiet{}, "", "", "", tr, proctree.Self(), args...)
+	return p, err
 }
 
 func genNode(t *rapid.T, depth int, budget *int, isRoot bool, rootMustLive bool) proctree.Node {
@@ -120,6 +141,7 @@ func genCase(t *rapid.T) Case {
 		c.Tree.LiveMs, c.Tree.WaitChildren = longLife, false
 	}
 	c.StopAtMs = rapid.SampledFrom([]int{-1, -1, -1, 0, 1, 3, 5, 10, 25}).Draw(t, "stop-at-ms")
+	c.As = rapid.SampledFrom([]string{"", "", "", "env", "nice", "me"}).Draw(t, "as")
 	if c.StopAtMs >= 0 && rapid.IntRange(0, 2).Draw(t, "busy") == 0 {
 		c.Busy = rapid.SampledFrom([]int{1, 4, 16, 64}).Draw(t, "spinners")
 		c.OneCPU = rapid.Bool().Draw(t, "one-cpu")
@@ -231,13 +253,13 @@ func check(t ev.T, test string, c Case) {
 	began := time.Now()
 	switch c.Start {
 	case "execute":
-		p, err = subprocess.New(runCtx, quiet{}, "", "", "", proctree.Self(), args...)
+		p, err = newProc(runCtx, c.As, args)
 		if err != nil {
 			ev.Fail(t, prop, test, c, "New failed: %v", err)
 		}
 		go func() { done <- p.Execute() }()
 	case "start":
-		p, err = subprocess.New(runCtx, quiet{}, "", "", "", proctree.Self(), args...)
+		p, err = newProc(runCtx, c.As, args)
 		if err != nil {
 			ev.Fail(t, prop, test, c, "New failed: %v", err)
 		}
@@ -251,7 +273,7 @@ func check(t ev.T, test string, c Case) {
 	case "supervisor":
 		var created []*subprocess.Subprocess
 		sup := supervisor.NewSupervisor(func(sctx context.Context) (*subprocess.Subprocess, error) {
-			sp, serr := subprocess.New(sctx, quiet{}, "", "", "", proctree.Self(), args...)
+			sp, serr := newProc(sctx, c.As, args)
 			if serr == nil {
 				created = append(created, sp)
 				p = sp
@@ -508,6 +530,9 @@ func check(t ev.T, test string, c Case) {
 		}
 	}
 	cls := fmt.Sprintf("%s/%s", c.Start, c.Stop)
+	if c.As != "" {
+		ev.Class("through a command translator: " + c.As)
+	}
 	if exempt > 0 {
 		ev.Class("escaped members left alone")
 	}
